@@ -1637,6 +1637,13 @@ func (sc *serverConn) sendData(strm *Stream) bool {
 
 		strm.window -= step
 		sc.clientWindow -= step
+
+		// END_STREAM is the last thing the stream says. A body that goes on
+		// past its declared length (or past what the status code allows: the
+		// length of a 204 is zero whatever the handler streams) is dropped.
+		if end {
+			break
+		}
 	}
 
 	sc.closeBodyStream(strm)
